@@ -825,10 +825,14 @@ func (e *balEngine) block(pending []*balTx, dt uint64) {
 					depth = 1
 				}
 				auth := Witness(bt.signers, bt.from, depth) || (bt.viaProbe && bytes.Equal(bt.from, e.holder.BytesBE()))
-				if len(bt.from) == 20 && len(bt.to) == 20 && auth {
+				switch {
+				case len(bt.from) != 20 || len(bt.to) != 20:
+					// (C01's quantifier: "empty/short/long addresses for the public transfer")
+					rule = "C01/accepted-malformed-transfer"
+				case !auth:
+					rule = "C02/accepted-unauthorised-transfer"
+				default:
 					rule = "C01/accepted-unfunded-transfer"
-				} else {
-					rule = "C02/accepted-unauthorised-or-malformed-transfer"
 				}
 			case !e.alphabetWitness(bt, 0):
 				rule = "C03/balance-call-accepted-without-alphabet-witness"
